@@ -43,6 +43,10 @@ Definition run_hiters (p : profile) (bs : list byte) (ops : list arg) : list str
 Definition run_hdrnull (p : profile) : list string :=
   [ line "load" (sRes (fun _ : dref => "") (hdr_load p true {| m_base := 0; m_bytes := [] |})) ].
 
+(* hdrmis <addr mod 8> <bytes>: load through a pointer that need not be 8-aligned *)
+Definition run_hdrmis (p : profile) (a : N) (bs : list byte) : list string :=
+  [ line "load" (sRes (fun _ : dref => "") (hdr_load p false {| m_base := a; m_bytes := bs |})) ].
+
 Definition run_find (p : profile) (a : N) (bs : list byte) : list string :=
   [ line "find_header"
       (sRes (sOpt (fun x => match x with (off, n, idx) => sView off n ++ " idx=" ++ sN idx end))
